@@ -403,4 +403,17 @@ def run(ctx):
         run.instance(R7, {"sink": sink, "root": "%s %s" % (kind, pp.short(str(val))), "in": pp.short(fid)}, held=held)
         if not held:
             run.finding(Finding(R7, fid, "use_test_rng of %s has root %s %s" % (sink, kind, pp.short(str(val))), site=site))
+    R8 = "C12.R8"
+    run.rule(R8, "a signing context is used once: after the wallet has signed, finalize deletes the stored context and commits the deletion", floor=2)
+    from .shared import writes_committed
+    fz = c.LW + "api_impl::foreign::finalize_tx"
+    n8 = writes_committed(ctx, R8, only_fns={fz}, only_effects={"delete_private_context"})
+    ffz = ctx.fn(fz)
+    if ffz:
+        # every Ok return of finalize_tx passed a delete_private_context call
+        de = c.after_call_edges(ffz, c.WOB + "delete_private_context")
+        h = bool(de) and cfg.must_pass(ffz, de, cfg.return_blocks(ffz), cut_nodes=cfg.error_return_blocks(ffz))[0]
+        run.instance(R8, {"fn": "foreign::finalize_tx", "obligation": "Ok is returned only after delete_private_context (both arms)"}, held=h)
+        if not h:
+            run.finding(Finding(R8, fz, "finalize_tx can return Ok without deleting the signing context", site=ffz.loc()))
     run.not_decided += ["quality of the RNG; that no two nonces ever collide", "recoverability of plaintext from arbitrary emitted byte strings (runtime observation)", "crash points between file operations as executions (R5 gives the order constraints only)"]
